@@ -28,6 +28,7 @@ THEOREMS = [
     'C03.bins_refine', 'C03.src_bins_sound', 'C03.cands_table_eq', 'C03.nlistFull_complete',
     'C03.nbr_growth_as_modelled', 'C03.answers_fresh', 'C03.answers_history_independent', 'C03.answers_complete',
     'C03.src_reals_double', 'C03.src_scalars_as_modelled', 'C03.dump_as_modelled', 'C03.src_dump_roundtrip',
+    'C03.getitem_as_modelled',
 ]
 PARTIAL = {}
 RULE = ('systems: orthogonal / tilted / general (rotated, left-handed) cells with non-zero origin, all 8 pbc '
@@ -425,6 +426,49 @@ def gen_dense(rng, it):
     return _case(v, origin, pos, pbc, rng.choice([2.5, 3.0]), 'grid', init, delta)
 
 
+def gen_crystal(rng, it, nmax=400):
+    """Perfect crystals (sc / bcc / fcc supercells, conventional or sheared by whole lattice vectors, atom order
+    shuffled), everything on a dyadic grid (unit = a/4), cutoff a multiple of the plane spacing or exactly a shell
+    radius (a/2 .. 2a): with periodic boundaries EVERY cutoff-sized bin of the superbox holds the same, maximal number
+    of atoms + ghosts (own bin and all 13 stencil bins full at once: the longest possible compare list), shells sit
+    exactly at the cutoff (ties decided exactly), coordination numbers are uniform."""
+    np = _np()
+    kind = ('sc', 'bcc', 'fcc')[it % 3]
+    basis = {'sc': [(0, 0, 0)], 'bcc': [(0, 0, 0), (2, 2, 2)],
+             'fcc': [(0, 0, 0), (0, 2, 2), (2, 0, 2), (2, 2, 0)]}[kind]
+    while True:
+        reps = [rng.randint(1, 6) for _ in range(3)]
+        if len(basis) * reps[0] * reps[1] * reps[2] <= nmax:
+            break
+    V = [[4 * reps[0], 0, 0], [0, 4 * reps[1], 0], [0, 0, 4 * reps[2]]]
+    if it % 2:
+        V[1][0] = 4 * rng.randint(-reps[0], reps[0])
+        V[2][0] = 4 * rng.randint(-reps[0], reps[0])
+        V[2][1] = 4 * rng.randint(-reps[1], reps[1])
+    if it % 6 == 5:
+        V = [V[2], [-x for x in V[0]], V[1]]
+    o = [rng.randint(-12, 12) for _ in range(3)]
+    shift = rng.choice([(0, 0, 0), (1, 1, 1), (1, 0, 2)])          # (0,0,0): atoms on the cell faces
+    pts = []
+    for i in range(reps[0]):
+        for j in range(reps[1]):
+            for k in range(reps[2]):
+                for b in basis:
+                    p = [o[0] + 4 * i + b[0] + shift[0], o[1] + 4 * j + b[1] + shift[1], o[2] + 4 * k + b[2] + shift[2]]
+                    pts.append(tuple(_reduce_into_cell(p, o, V, [True, True, True])))
+    assert len(set(pts)) == len(pts)
+    pts = [list(p) for p in pts]
+    rng.shuffle(pts)
+    pbc = (True, True, True) if it % 4 else ALL_PBC[(it // 4) % 8]
+    cu = rng.choice({'sc': [4, 4, 8, 6, 3, 5], 'bcc': [2, 4, 4, 6, 8, 3], 'fcc': [2, 4, 4, 6, 8, 3]}[kind])
+    unit = rng.choice([0.25, 0.5, 1.0, 0.125])
+    sc = lambda x: x * unit  # noqa  (exact: small integers times a power of two)
+    case = _case([[sc(x) for x in row] for row in V], [sc(x) for x in o], [[sc(x) for x in p] for p in pts], pbc,
+                 sc(cu), 'grid', rng.choice([1, 2, 6, 20]), rng.choice([1, 3, 10]))
+    case['crystal'] = kind
+    return case
+
+
 def _shortest_combo(v, pbc):
     """length of the shortest non-zero lattice vector among the shifts -1, 0, 1 along the periodic directions."""
     np = _np()
@@ -685,6 +729,15 @@ def gen_nearcut(rng, it):
     if not pts:
         pts = [(np.array([0.5, 0.5, 0.5]) @ v + o).tolist()]
     return _case(v, origin, pts, pbc, cutoff, 'float', rng.randint(1, 6), rng.randint(1, 4))
+
+
+def _gen_crystal_small(rng, it):
+    """crystals the exact model can afford: the cost grows with (atoms + ghosts) x (bin occupancy)."""
+    while True:
+        case = gen_crystal(rng, it, nmax=64)
+        w = min(_widths(case['vects']))
+        if case['cutoff'] <= 1.01 * w or len(case['pos']) <= 16:
+            return case
 
 
 def load_corpus():
@@ -1353,6 +1406,42 @@ def _translate_dump():
             'eol': const_of(loop.body[2])}
 
 
+def _translate_object():
+    """`NeighborList.build` / `__getitem__` / `__len__` / `coord` / `nlist`, walked as syntax trees: the one call of
+    `nlist` hands the four arguments on unchanged, column `coord_col` of the returned array is `coord`, the columns from
+    `nbr_from` on are the neighbor storage, `[key]` is that storage cut at `coord[key]`."""
+    import ast
+    import re
+    from ..translate import TranslationError
+    tree = ast.parse(cm.source('atomman/core/NeighborList.py'))
+    cls = [n for n in tree.body if isinstance(n, ast.ClassDef) and n.name == 'NeighborList']
+    if len(cls) != 1:
+        raise TranslationError('class NeighborList not found')
+    fns = {n.name: n for n in cls[0].body if isinstance(n, ast.FunctionDef)}
+
+    def body(name):
+        if name not in fns:
+            raise TranslationError(f'NeighborList.{name} not found')
+        return [ast.unparse(n) for n in fns[name].body
+                if not (isinstance(n, ast.Expr) and isinstance(n.value, ast.Constant))]
+
+    def expect(name, stmts):
+        if body(name) != stmts:
+            raise TranslationError(f'NeighborList.{name} no longer has the translated shape: {body(name)}')
+    b = body('build')
+    if len(b) != 3 or b[0] != 'self.__nlist = nlist(system, cutoff, initialsize=initialsize, deltasize=deltasize)':
+        raise TranslationError(f'NeighborList.build no longer has the translated shape: {b}')
+    m = re.fullmatch(r'self\.__coord = self\.__nlist\[:, (\d+)\]', b[1])
+    m2 = re.fullmatch(r'self\.__neighbors = self\.__nlist\[:, (\d+):\]', b[2])
+    if not m or not m2:
+        raise TranslationError(f'NeighborList.build: coord / neighbors split changed: {b[1:]}')
+    expect('__getitem__', ['return self.__neighbors[key, :self.coord[key]]'])
+    expect('__len__', ['return len(self.__coord)'])
+    expect('coord', ['return self.__coord'])
+    expect('nlist', ['return self.__nlist'])
+    return {'coord_col': int(m.group(1)), 'nbr_from': int(m2.group(1))}
+
+
 def _translate_scalars():
     from ..translate import TranslationError
     import re
@@ -1424,6 +1513,7 @@ def translate():
         '']
     nd, dd, sg = _translate_scalars()
     dump = _translate_dump()
+    obj = _translate_object()
     out += [
         '/-! ### declared C types of the real-valued variables (the model is exact over `Rat`: it idealises `double`) -/',
         'inductive CReal where', '  | double | single | longdouble', '  deriving DecidableEq, Repr', '']
@@ -1461,6 +1551,11 @@ def translate():
         f'def dumpNbr (j : Nat) : List Char := {_fmt_lean(dump["nbr"], "j")}',
         f'/-- `fp.write({_cmt(repr(dump["eol"]))})` -/',
         f'def dumpEol : List Char := {_chars(dump["eol"])}',
+        '', '/-! ### `NeighborList.build` / `[key]` -/',
+        '/-- `self.__coord = self.__nlist[:, k]` -/',
+        f'def coordCol : Nat := {obj["coord_col"]}',
+        '/-- `self.__neighbors = self.__nlist[:, k:]`; `[key]` is `self.__neighbors[key, :self.coord[key]]` -/',
+        f'def nbrFrom : Nat := {obj["nbr_from"]}',
         '', 'end Atomman.C03.Gen', '']
     return {'NlistStorage': '\n'.join(out)}
 
@@ -1515,6 +1610,7 @@ def canary(ctx):
     cases = [c for _, c in load_corpus()]
     for gen in (gen_general, gen_grid, gen_edges, gen_hunt, gen_shear, gen_dense, gen_seq_start, gen_fine, gen_nearcut):
         cases += [gen(rng, it) for it in range(12 if gen is gen_dense else 40)]
+    cases += [gen_crystal(rng, it) for it in range(24)]
     res = _run_forked(cases)
     ctx.extra['_canary'] = res is not None
     ctx.extra['canary_cases'] = len(cases)
@@ -1650,7 +1746,8 @@ def correspond(ctx):
             _correspond_case(ctx, case, 'corpus:' + name, tmpdir, True)
         plan = [(gen_general, ctx.n(120, 4000)), (gen_grid, ctx.n(120, 3000)), (gen_edges, ctx.n(50, 1000)),
                 (gen_hunt, ctx.n(150, 4000)), (gen_outside, ctx.n(80, 2000)), (gen_shear, ctx.n(120, 3000)),
-                (gen_dense, ctx.n(15, 200)), (gen_fine, ctx.n(120, 3000)), (gen_nearcut, ctx.n(100, 3000))]
+                (gen_dense, ctx.n(15, 200)), (gen_fine, ctx.n(120, 3000)), (gen_nearcut, ctx.n(100, 3000)),
+                (_gen_crystal_small, ctx.n(12, 150))]
         import time
         ph = ctx.extra.setdefault('phase_seconds', {})
         for gen, count in plan:
@@ -2184,6 +2281,30 @@ def scale_checks(ctx, rng, tmpdir, broken):
 # ----------------------------------------------------------------------------------------
 # search: the property's clauses on the real code
 # ----------------------------------------------------------------------------------------
+def _object_clauses(nl, rows, coord):
+    """the observation points of the property agree with each other on one NeighborList object: len, `.coord`,
+    `.nlist` (column 0 = coordination number, then the list), `[i]` for python / numpy / negative integers."""
+    np = _np()
+    n = len(rows)
+    try:
+        if len(nl) != n:
+            return f'len(NeighborList) = {len(nl)} for {n} atoms'
+        arr = np.asarray(nl.nlist)
+        if arr.ndim != 2 or arr.shape[0] != n or arr.shape[1] < 1 + max(coord or [0]):
+            return f'.nlist has shape {arr.shape} for {n} atoms with coordination up to {max(coord or [0])}'
+        for i in range(n):
+            if int(arr[i, 0]) != coord[i] or [int(j) for j in arr[i, 1:1 + coord[i]]] != rows[i]:
+                return (f'.nlist[{i}] = {arr[i].tolist()[:coord[i] + 2]} does not start with the coordination number '
+                        f'{coord[i]} followed by the list {rows[i]}')
+        for key, i in ((np.int64(n - 1), n - 1), (-1, n - 1), (np.int32(0), 0), (-n, 0)):
+            got = [int(j) for j in nl[key]]
+            if got != rows[i]:
+                return f'NeighborList[{key!r}] = {got} but NeighborList[{i}] = {rows[i]}'
+    except Exception as e:  # noqa
+        return f'reading the NeighborList raised {type(e).__name__}: {e}'
+    return None
+
+
 def _search_case(ctx, case, kind, name, full, tmpdir=None):
     n = len(case['pos'])
     init, delta = case['init'] or 20, case['delta'] or 10
@@ -2205,6 +2326,12 @@ def _search_case(ctx, case, kind, name, full, tmpdir=None):
         ctx.violate(key, what + f' [{kind}; natoms={n}, pbc={case["pbc"]}, initialsize={init}, deltasize={delta}]',
                     _payload(case))
         return
+    if full:
+        bad = _object_clauses(nl, rows, coord)
+        if bad:
+            ctx.violate('object', bad + f' [{kind}; natoms={n}, pbc={case["pbc"]}, initialsize={init}, '
+                        f'deltasize={delta}]', _payload(case))
+            return
     if full and tmpdir is not None and n <= 60:
         if _roundtrip_real(ctx, case, nl, rows, tmpdir, kind, n + init) is None:
             return
@@ -2259,7 +2386,8 @@ def search(ctx, broken):
     plan = [('dense', gen_dense, ctx.n(40, 1500) * mult), ('shear', gen_shear, ctx.n(600, 12000) * mult),
             ('hunt', gen_hunt, ctx.n(4000, 100000) * mult), ('general', gen_general, ctx.n(250, 8000) * mult),
             ('grid', gen_grid, ctx.n(250, 8000) * mult), ('edges', gen_edges, ctx.n(100, 3000) * mult),
-            ('fine', gen_fine, ctx.n(500, 15000) * mult), ('nearcut', gen_nearcut, ctx.n(400, 12000) * mult)]
+            ('fine', gen_fine, ctx.n(500, 15000) * mult), ('nearcut', gen_nearcut, ctx.n(400, 12000) * mult),
+            ('crystal', gen_crystal, ctx.n(60, 1500) * mult)]
     with tempfile.TemporaryDirectory(prefix='c03_') as tmpdir:
         import time
         ph = ctx.extra.setdefault('phase_seconds', {})
